@@ -47,7 +47,7 @@ COMPONENTS = {
                   "file objects (SimFile)", "evaluation failures (EvalPoint)", "process / PYTHONHASHSEED (fresh interpreters)"],
     "stubbed": [],
 }
-EXPECTED_PROBES = ["burst-of-evaluations-on-one-multi-range-function", "identical-form-text-other-helper-in-pool", "eval-exactly-at-range-boundary", "switch-inside-write", "two-tasks-same-handle", "write-after-faulted-write", "excel-write-across-clock-jump",
+EXPECTED_PROBES = ["python-api-model-in-pool", "burst-of-evaluations-on-one-multi-range-function", "identical-form-text-other-helper-in-pool", "eval-exactly-at-range-boundary", "switch-inside-write", "two-tasks-same-handle", "write-after-faulted-write", "excel-write-across-clock-jump",
                    "backwards-clock-jump", "hashseed-comparison", "underspecified-eam-under-hashseeds", "shared-subform-different-args",
                    "same-form-name-different-formula-in-pool", "rebuild-same-model", "write-twice-same-handle", "eval-between-rows-of-own-write"]
 
@@ -226,8 +226,14 @@ def gen_scenario(seed, tier="quick"):
                      "underspecified_prob": 0.9, "max_species": 4, "min_species": 2})
     elif hs_run:
         opts.update({"max_species": 4, "min_species": 3, "min_functions": 4})
-    base = mg.gen_model(rng, opts)
-    helper = ensure_shared_subform(rng, base) if rng.random() < 0.35 else None
+    api_pool = (not hs_run) and rng.random() < 0.15
+    if api_pool:
+        from . import apimodel
+        base = apimodel.gen_api_model(rng, natural=False, tier=tier)
+        helper = None
+    else:
+        base = mg.gen_model(rng, opts)
+        helper = ensure_shared_subform(rng, base) if rng.random() < 0.35 else None
     models = [base]
     nmodels = rng.choice([1, 2, 2, 3])
     if helper and nmodels == 1:
@@ -237,13 +243,20 @@ def gen_scenario(seed, tier="quick"):
     while len(models) < nmodels and guard < 20:
         guard += 1
         how = rng.choice(["retarget", "same-names-other-formulas", "same-names-other-formulas", "pair-from-eam", "independent", "identical"])
+        if api_pool:
+            how = rng.choice(["independent", "identical"])
         if helper and "other-helper" not in tags:
             how = "other-helper"
-        if how == "independent":
+        if how == "independent" and api_pool:
+            from . import apimodel
+            m = apimodel.gen_api_model(rng, natural=False, tier=tier)
+        elif how == "independent":
             o2 = dict(opts)
             if rng.random() < 0.7:
                 o2["prefer_species"] = list(base["meta"]["species"])
                 o2["species_override_prob"] = 0.5
+            if rng.random() < 0.5:
+                o2["targets"] = [base["meta"]["target"]]      # same writer, other model: per-writer state collides
             m = mg.gen_model(rng, o2)
         elif how == "identical":
             m = copy.deepcopy(rng.choice(models))
@@ -345,6 +358,9 @@ def gen_scenario(seed, tier="quick"):
 # ----------------------------------------------------------------------------------------------
 
 def _build(spec, sim, tag):
+    if spec.get("api"):
+        from .apimodel import ApiTarget
+        return ApiTarget(spec, sim, instrument=True)
     from atsim.potentials.config import Configuration
     tab = Configuration().read(io.StringIO(mg.render_ini(spec)))
     instrument_tabulation(tab, sim, tag="")
@@ -377,6 +393,9 @@ _BOUNDARY = re.compile(r">=?\s*(\d+(?:\.\d+)?)")
 
 def range_boundaries(spec):
     """Every range-start value written in the model's function definitions (sorted, unique)."""
+    if spec.get("api"):
+        from .apimodel import function_fdescs, fdesc_boundaries
+        return sorted(set(b for fd in function_fdescs(spec).values() for b in fdesc_boundaries(fd)))
     out = set()
     for s in spec["sections"]:
         if s["name"] in mg.FUNCTION_SECTIONS:
@@ -391,6 +410,10 @@ _LABEL_PREFIX = {"Pair": "pair", "EAM-Embed": "embed", "EAM-Density": "dens", "E
 
 def function_definitions(spec):
     """{harness label: definition text} for every function entry written in the model."""
+    if spec.get("api"):
+        from .apimodel import function_fdescs, fdesc_boundaries
+        # render the boundaries in the textual form the boundary regex understands
+        return {lab: " ".join(">%s" % fmt_num(b) for b in fdesc_boundaries(fd)) or "plain" for lab, fd in function_fdescs(spec).items()}
     out = {}
     for s in spec["sections"]:
         if s["name"] in _LABEL_PREFIX:
@@ -563,7 +586,9 @@ def execute(sc):
                             res.append(r)
                         elif kind == "touch_workbook":
                             tab = handles[h]
-                            if hasattr(tab, "workbook"):
+                            if hasattr(tab, "has_workbook") and not tab.has_workbook():
+                                res.append({"ok": True, "na": True})
+                            elif hasattr(tab, "workbook"):
                                 try:
                                     tab.workbook
                                     res.append({"ok": True})
@@ -688,7 +713,8 @@ def judge(sc, refs, res):
                                   op["what"], e.get("x"), r.get("f"), r.get("bits") or r.get("exc"), e.get("bits") or e.get("exc"))})
             elif kind in ("write", "write_faulted"):
                 w = ref["write"]
-                target = meta["target"]
+                target = {"Excel_PairTabulation": "excel(api)", "Excel_EAMTabulation": "excel_eam(api)",
+                          "Excel_FinnisSinclair_EAMTabulation": "excel_eam_fs(api)"}.get(meta["target"], meta["target"])
                 if kind == "write_faulted" and r.get("fired"):
                     if "exc" not in r:
                         v.append({"class": "C12/faulted-write-returned-normally/target=%s" % target, "task": ti, "op": oi,
@@ -766,7 +792,7 @@ def run_hashseeds(sc, refs):
     stats = {"hashseed_processes": 0}
     seen = set()
     for i, spec in enumerate(sc["models"]):
-        key = short(spec["sections"], 12)
+        key = short(spec.get("sections") or {k: v for k, v in spec.items() if k != "meta"}, 12)
         if key in seen or refs[i].get("build_error"):
             continue
         seen.add(key)
@@ -844,7 +870,7 @@ def run_job(job):
                                                   "+".join(sorted(set(m["meta"]["target"] for m in sc["models"]))),
                                                   "hashseeds" if sc.get("hashseeds") else ("switch-in-write" if res.get("switches_in_write") else "sequential")))
         if nontrivial(sc, res, extra):
-            st["keys"].append(short({"m": [m["sections"] for m in sc["models"]], "t": sc["tasks"], "s": res.get("schedule"),
+            st["keys"].append(short({"m": [m.get("sections") or {k: v for k, v in m.items() if k != "meta"} for m in sc["models"]], "t": sc["tasks"], "s": res.get("schedule"),
                                      "h": sc.get("hashseeds")}, 16))
             st["extra"].setdefault("distinct_schedules", []).append(short(res.get("schedule"), 12))
         for f in res.get("fired", []):
@@ -857,7 +883,8 @@ def run_job(job):
                 sc_rec["schedule"] = res.get("schedule")
                 st["violations"].append(dict(x, scenario=sc_rec))
         if not st["samples"] and res.get("switches_in_write"):
-            st["samples"].append({"seed": s, "models": [{"tag": t, "target": m["meta"]["target"], "ini": mg.render_ini(m)} for t, m in zip(sc["model_tags"], sc["models"])],
+            st["samples"].append({"seed": s, "models": [{"tag": t, "target": m["meta"]["target"], "ini": (None if m.get("api") else mg.render_ini(m)),
+                                              "api_model": ({k: v for k, v in m.items() if k != "meta"} if m.get("api") else None)} for t, m in zip(sc["model_tags"], sc["models"])],
                                   "shared_handles": sc["shared"], "tasks": sc["tasks"], "switch_prob": sc["switch_prob"],
                                   "schedule_prefix": (res.get("schedule") or [])[:60], "switches": res.get("switches"),
                                   "switches_inside_writes": res.get("switches_in_write"), "hashseeds": sc.get("hashseeds")})
@@ -907,7 +934,7 @@ def _probes(sc, refs, res, extra, bump):
     if extra.get("hashseed_processes"):
         bump("probe:hashseed-comparison")
         for m in sc["models"]:
-            if m["meta"]["kind"] != "pair":
+            if m["meta"]["kind"] != "pair" and not m.get("api"):
                 emb = [k for s in m["sections"] if s["name"] == "EAM-Embed" for k, _ in s["entries"]]
                 den = set()
                 for s in m["sections"]:
@@ -918,6 +945,9 @@ def _probes(sc, refs, res, extra, bump):
                     bump("probe:underspecified-eam-under-hashseeds")
                     break
     for m in sc["models"]:
+        if m.get("api"):
+            bump("probe:python-api-model-in-pool")
+            continue
         pf = mg.get_section(m, "Potential-Form")
         if pf:
             names = [e[0].split("(")[0] for e in pf["entries"]]
@@ -999,6 +1029,8 @@ def shrink_candidates(sc):
             yield c
     # model simplification
     for mi, spec in enumerate(sc["models"]):
+        if spec.get("api"):
+            continue
         for si, s in enumerate(spec["sections"]):
             if s["name"] in mg.FUNCTION_SECTIONS:
                 for ei in range(len(s["entries"])):
